@@ -602,6 +602,24 @@ pub fn run(rep: &mut Report) {
             c.groups = vec!["c11"];
             run_cfg::<u16>(rep, c, if thorough { Limits::new(200, 400_000, 60.0) } else { Limits::new(200, 40_000, 4.0) }, false);
         }
+        // an alias-only PUBLISH whose store copy (full 10-byte topic) exceeds the peer's limit while the packet
+        // itself (longer payload, no topic) does not: accepted or refused, a refusal leaves no trace
+        {
+            let role = RoleK::Client;
+            let mut c = EpCfg::new(&cfg_name("c11-fanout", role, Some(Ver::V5), "alias + store copy over the size limit"), role, Some(Ver::V5));
+            c.auto_pub = true;
+            c.window = 2;
+            c.use_extra = 3;
+            c.alph = session_alph(true, 2);
+            c.alph.pub_q = vec![0, 1];
+            c.alph.topics = 1;
+            c.alph.topic_base = 2;
+            c.alph.als = vec![Al::No, Al::Reg(1), Al::Reg(2), Al::Use(1), Al::Use(2)];
+            c.connects = vec![ConnProf { tam: Some(2), ..ConnProf::basic(false) }];
+            c.connacks = vec![AckProf { tam: Some(2), mps: Some(19), ..AckProf::basic(true) }, AckProf { tam: Some(2), mps: Some(19), ..AckProf::basic(false) }];
+            c.groups = vec!["c11"];
+            run_cfg::<u16>(rep, c, if thorough { Limits::new(200, 400_000, 60.0) } else { Limits::new(200, 40_000, 4.0) }, false);
+        }
         rep.floor("c11.refused-publish-checked", 50);
         rep.floor("c11.fanout-refusal-checked", 1000);
     }
